@@ -158,5 +158,156 @@ theorem check_cut (hO : OracleSpec A obj o) (mx : Mixin) (strat : Strat) (extra 
       · exact take_length_append _ _
       · exact take_length_append _ _
 
+variable (A obj g gi base ex marks0 bad0) in
+/-- invariant of the `while not current.empty()` loop after the first satisfiable step -/
+structure LInv (strat : Strat) (iv : Interval) (best : M) (s : Solver M) : Prop where
+  feas : Feas A obj base ex best
+  nearEq : near g iv = some (obj gi best)
+  farBound : ∀ f, far g iv = some f → ∀ m, Feas A obj base ex m → sg g f ≤ sg g (obj gi m)
+  farOk : ∀ f, far g iv = some f → FarOk g f
+  farNone : far g iv = none → g.dom = .int
+  piv : strat = .linear → iv.pivot = none
+  sinv : SInv A obj g gi base ex marks0 bad0 (obj gi best) s
+
+/-- one iteration makes progress: the distance between the bounds shrinks, or (unknown far bound)
+    the best value improves or the far bound becomes known -/
+def Progress (g : Goal) (iv iv' : Interval) : Prop :=
+  ∃ n n', near g iv = some n ∧ near g iv' = some n' ∧ sg g n' ≤ sg g n ∧
+    match far g iv with
+    | some f => ∃ f', far g iv' = some f' ∧ sg g n' - sg g f' < sg g n - sg g f
+    | none => (far g iv' = none ∧ sg g n' < sg g n) ∨ (∃ f', far g iv' = some f')
+
+theorem lt_of_not_empty (g : Goal) (iv : Interval) (n f : Int) (he : iv.empty = false)
+    (hn : near g iv = some n) (hf : far g iv = some f) : sg g f < sg g n := by
+  have h2 : ¬ sg g n ≤ sg g f := fun h => by
+    have := (empty_iff g iv).2 ⟨n, f, hn, hf, h⟩
+    simp [he] at this
+  omega
+
+theorem castOk_int (g : Goal) (h : g.dom = .int) (v : Int) : castOk g.dom v = true := by
+  rw [h]; rfl
+
+theorem cut_facts {strat : Strat} {iv : Interval} {best : M} {s : Solver M}
+    (hDom : ∀ m, A m → castOk g.dom (obj gi m) = true)
+    (hI : LInv A obj g gi base ex marks0 bad0 strat iv best s) (he : iv.empty = false) :
+    ∃ iv1 b, cutBound strat g iv = (iv1, some b) ∧ sg g b ≤ sg g (obj gi best) ∧ castOk g.dom b = true ∧
+      near g iv1 = near g iv ∧ far g iv1 = far g iv ∧
+      (strat = .linear → b = obj gi best ∧ iv1.pivot = none) ∧
+      (strat = .binary → iv1.pivot = some b ∧ ∀ f, far g iv = some f → sg g f < sg g b) := by
+  have hbest : castOk g.dom (obj gi best) = true := hDom _ hI.feas.1
+  cases strat with
+  | linear =>
+    refine ⟨iv, obj gi best, ?_, Int.le_refl _, hbest, rfl, rfl, fun _ => ⟨rfl, hI.piv rfl⟩, fun h => by cases h⟩
+    rw [cutBound_linear, hI.nearEq]
+  | binary =>
+    refine ⟨{ iv with pivot := some (computePivot g iv) }, computePivot g iv, cutBound_binary g iv, ?_, ?_,
+      near_withPivot _ _ _, far_withPivot _ _ _, (fun h => by cases h), fun _ => ⟨rfl, ?_⟩⟩
+    · cases hf : far g iv with
+      | none => exact pivot_le_near g iv _ hI.nearEq hf
+      | some f =>
+        have hlt : sg g f < sg g (obj gi best) := lt_of_not_empty g iv _ f he hI.nearEq hf
+        exact (pivot_between g iv _ f hI.nearEq hf hlt).2
+    · cases hf : far g iv with
+      | none => exact castOk_int g (hI.farNone hf) _
+      | some f =>
+        have hlt : sg g f < sg g (obj gi best) := lt_of_not_empty g iv _ f he hI.nearEq hf
+        have hb := pivot_between g iv _ f hI.nearEq hf hlt
+        exact hI.farOk f hf _ _ hb.1 hb.2 hbest
+    · intro f hf
+      have hlt : sg g f < sg g (obj gi best) := lt_of_not_empty g iv _ f he hI.nearEq hf
+      exact (pivot_between g iv _ f hI.nearEq hf hlt).1
+
+/-- one iteration of the loop: no cast fails, the invariant is kept, progress is made -/
+theorem step_spec (hO : OracleSpec A obj o) {mx : Mixin} {strat : Strat} {extra : List Constraint}
+    (hex : ex = effExtra mx extra)
+    (hDom : ∀ m, A m → castOk g.dom (obj gi m) = true)
+    {iv : Interval} {best : M} {s : Solver M}
+    (hI : LInv A obj g gi base ex marks0 bad0 strat iv best s) (he : iv.empty = false) :
+    ∃ iv' best' s',
+      (∀ n, searchLoop o obj mx strat g gi extra (n + 1) iv best s =
+            searchLoop o obj mx strat g gi extra n iv' best' s') ∧
+      LInv A obj g gi base ex marks0 bad0 strat iv' best' s' ∧ Progress g iv iv' := by
+  obtain ⟨iv1, b, hcb, hbt, hcast, hn1, hf1, hlin, hbin⟩ := cut_facts hDom hI he
+  have hcc := check_cut (g := g) (gi := gi) (marks0 := marks0) (bad0 := bad0) hO mx strat extra hex g.dom
+    (obj gi best) b s hI.sinv hbt
+  cases hr : checkProgress o mx strat extra (some (.atom ⟨gi, g.dom, strictCmp g, b⟩)) s with
+  | mk r s1 =>
+  rw [hr] at hcc
+  obtain ⟨hsat, hunsat, hinvS, hinvU⟩ := hcc
+  cases r with
+  | some m =>
+    obtain ⟨hfm, hltm⟩ := hsat m rfl
+    have hnear' : near g (searchIsSat g iv1 (obj gi m)) = some (obj gi m) :=
+      near_searchIsSat_lt g iv1 _ _ (by rw [hn1]; exact hI.nearEq) (by omega)
+    have hfar' : far g (searchIsSat g iv1 (obj gi m)) = far g iv := by rw [far_searchIsSat, hf1]
+    refine ⟨searchIsSat g iv1 (obj gi m), m, s1, ?_, ?_, ?_⟩
+    · intro n
+      rw [searchLoop]
+      simp only [he, hcb, hcast, hr]
+      simp
+    · refine ⟨hfm, hnear', ?_, ?_, ?_, fun _ => pivot_searchIsSat _ _ _, hinvS _ (by omega)⟩
+      · intro f hf; rw [hfar'] at hf; exact hI.farBound f hf
+      · intro f hf; rw [hfar'] at hf; exact hI.farOk f hf
+      · intro hf; rw [hfar'] at hf; exact hI.farNone hf
+    · refine ⟨_, _, hI.nearEq, hnear', by omega, ?_⟩
+      rw [hfar']
+      cases hf : far g iv with
+      | none => exact Or.inl ⟨rfl, by omega⟩
+      | some f => exact ⟨f, rfl, by omega⟩
+  | none =>
+    have hno := hunsat rfl
+    have hnear' : near g (searchIsUnsat g iv1) = some (obj gi best) := by
+      rw [near_searchIsUnsat, hn1]; exact hI.nearEq
+    refine ⟨searchIsUnsat g iv1, best, s1, ?_, ?_, ?_⟩
+    · intro n
+      rw [searchLoop]
+      simp only [he, hcb, hcast, hr]
+      simp
+    · cases strat with
+      | linear =>
+        obtain ⟨hb, hp⟩ := hlin rfl
+        subst hb
+        have hfar' : far g (searchIsUnsat g iv1) = some (obj gi best) := by
+          rw [far_searchIsUnsat_nopivot g iv1 hp, hn1]; exact hI.nearEq
+        refine ⟨hI.feas, hnear', ?_, ?_, ?_, ?_, hinvU (fun _ => rfl)⟩
+        · intro f hf m hm
+          rw [hfar'] at hf; cases hf
+          have := hno m hm; omega
+        · intro f hf
+          rw [hfar'] at hf; cases hf
+          exact farOk_of_castOk g _ hcast
+        · intro hf; rw [hfar'] at hf; cases hf
+        · intro _; rw [pivot_searchIsUnsat]; exact hp
+      | binary =>
+        obtain ⟨hp, hfb⟩ := hbin rfl
+        have hfar' : far g (searchIsUnsat g iv1) = some b := far_searchIsUnsat_pivot g iv1 b hp
+        refine ⟨hI.feas, hnear', ?_, ?_, ?_, (fun h => by cases h), hinvU (fun h => by cases h)⟩
+        · intro f hf m hm
+          rw [hfar'] at hf; cases hf
+          have := hno m hm; omega
+        · intro f hf
+          rw [hfar'] at hf; cases hf
+          exact farOk_of_castOk g _ hcast
+        · intro hf; rw [hfar'] at hf; cases hf
+    · refine ⟨_, _, hI.nearEq, hnear', Int.le_refl _, ?_⟩
+      cases strat with
+      | linear =>
+        obtain ⟨hb, hp⟩ := hlin rfl
+        have hfar' : far g (searchIsUnsat g iv1) = some (obj gi best) := by
+          rw [far_searchIsUnsat_nopivot g iv1 hp, hn1]; exact hI.nearEq
+        cases hf : far g iv with
+        | none => exact Or.inr ⟨_, hfar'⟩
+        | some f =>
+          have := lt_of_not_empty g iv _ f he hI.nearEq hf
+          exact ⟨_, hfar', by omega⟩
+      | binary =>
+        obtain ⟨hp, hfb⟩ := hbin rfl
+        have hfar' : far g (searchIsUnsat g iv1) = some b := far_searchIsUnsat_pivot g iv1 b hp
+        cases hf : far g iv with
+        | none => exact Or.inr ⟨_, hfar'⟩
+        | some f =>
+          have := hfb f hf
+          exact ⟨_, hfar', by omega⟩
+
 end
 end PySMT.Opt
